@@ -52,4 +52,4 @@ def run(tier, seed, replay=None):
     return simple_run('C10', tier, seed + 7, replay,
         'every arithmetic operator on all ordered pairs of 18 edge-of-range operands (literal and from the document, nested in arrays/objects/$map results) and 39 numeric built-in forms on each; same generator as C09 (directed and chaotic programs, every built-in, JSON inputs incl. nulls): every nil-error result is walked for non-JSON dynamic types and non-finite numbers, '
         'marshalled, and compared with EvalBytes on the same input text; ErrUndefined is compared with the model verdict "no value"; distinct = distinct (expression, input)',
-        cases, owner_direct=('json', 'evalbytes'), value_compare=False, panics_are='C09', post=undefined_iff)
+        cases, owner_direct=('json', 'evalbytes'), value_compare=False, panics_are='C09', post=undefined_iff, quiet_tie=True)
